@@ -22,7 +22,7 @@ CHECKS = {
     "C12": eng(Q(4, 400), Q(16, 10000, timeout=3000), inproc=[1, 2],
                assumptions=["Go randomises map iteration per range statement and per process; non-determinism that needs a particular hash seed is found only with luck"],
                arkrun=[("proc1", ["verif"]), ("proc2", ["verif"]), ("proc3", ["verif"])]),
-    "C13": eng(Q(8, 600), Q(16, 6000, timeout=3000), race=True,
+    "C13": eng(Q(8, 600), Q(16, 6000, timeout=3000), race=True, variants=[{"tags": ["verif"]}, {"tags": ["verif", "ark_debug"]}],
                assumptions=["the Go race detector (happens-before based) is the sensor for data races: a racy pair is reported when both accesses execute in one run; interleavings that never occurred are not explored"]),
     "C14": eng(Q(8, 2400), Q(16, 25000, timeout=3000), api_calls=True, api_exempt=["Query0.GetRelation"]),
     "C15": eng(Q(8, 3000), Q(16, 40000, timeout=3000)),
